@@ -21,6 +21,9 @@ MUTATORS = {"append", "extend", "insert", "remove", "pop", "clear", "update", "s
             "add", "discard", "popitem", "reverse", "__setitem__", "__delitem__", "appendleft", "popleft"}
 
 
+PURE_METHODS: Set[str] = set()   # set by Program: method names all of whose definitions are side-effect free
+
+
 class Node:
     __slots__ = ("id", "kind", "ast", "succ", "pred", "is_yield", "loop")
 
@@ -450,7 +453,7 @@ def _writes(n: Node) -> Set[str]:
                 root = recv
                 while isinstance(root, (ast.Attribute, ast.Subscript, ast.Call)):
                     root = root.value if not isinstance(root, ast.Call) else root.func
-                if isinstance(root, ast.Name):
+                if isinstance(root, ast.Name) and x.func.attr not in PURE_METHODS:
                     w.add("@call:" + root.id)
     return w
 
